@@ -120,6 +120,7 @@ func profiles() map[string]Profile {
 	p.Flush, p.Revert, p.Reopen, p.Snap, p.SnapClose, p.Visit, p.Copy, p.Write, p.SnapRevert = 10, 3, 5, 3, 2, 5, 2, 2, 2
 	p.FlushExtra = []string{"wlog %F"}
 	p.EndExtra = []string{"wlog %F", "appendcheck %F"}
+	p.CopyOnto = true
 	m["C09"] = p
 
 	p = base
@@ -144,6 +145,12 @@ func profiles() map[string]Profile {
 	pn.Cfg = func(r *rand.Rand) int { return cbNoKeyCmp }
 	m["C12n"] = pn
 
+	pc := m["C11"]
+	pc.Name = "C11n" // CopyTo when the comparators were installed with SetCollection only (no load-time callback): the copy must search under them too
+	pc.NoCmpCallback = true
+	pc.Cfg = func(r *rand.Rand) int { return cbNoKeyCmp }
+	m["C11n"] = pc
+
 	pn.Name = "C17p" // a PARTIAL load-time comparator callback (answers for names starting with 'r' only); the application installs the others after every open
 	pn.Cfg = func(r *rand.Rand) int { return cbPartialCmp }
 	pn.Snap, pn.SnapClose, pn.SnapRead, pn.Dump = 8, 3, 10, 6
@@ -156,6 +163,7 @@ func profiles() map[string]Profile {
 	p = base
 	p.Name = "C18"
 	p.Iter, p.Set, p.Evict, p.Flush, p.Reopen, p.HeapCheck = 30, 30, 5, 5, 3, 3
+	p.Fill = 3 // iterators abandoned over collections much longer than any read-ahead a producer might keep
 	m["C18"] = p
 
 	p = base
